@@ -50,7 +50,7 @@ theorem estPlain_sumSafe {e : Expr} (h : EstPlain e) (r : List Name) : EstPlain 
     · exact h
     · trivial
 
-theorem sortNames_ne_nil {l : List Name} (h : l ≠ []) : sortNames l ≠ [] := by
+theorem IdAux.sortNames_ne_nil {l : List Name} (h : l ≠ []) : sortNames l ≠ [] := by
   obtain ⟨x, hx⟩ := List.exists_mem_of_ne_nil _ h
   intro hn
   have := mem_sortNames.mpr hx
@@ -67,7 +67,7 @@ theorem sumSafe_plain_eq {e : Expr} (h : EstPlain e) {r : List Name} (hr : r ≠
       cases e <;> simp_all [EstPlain, isZero]
     · exact ⟨_, rfl⟩
 
-theorem takeWhile_ne_length_lt {l : List Name} {v : Name} (hv : v ∈ l) :
+theorem IdAux.takeWhile_ne_length_lt {l : List Name} {v : Name} (hv : v ∈ l) :
     (l.takeWhile (· ≠ v)).length < l.length := by
   induction l with
   | nil => cases hv
@@ -108,7 +108,7 @@ theorem pParents_total {order : List Name} {est : Expr} {v : Name} (hv : v ∈ o
     | zero => rw [hA] at ha; cases ha
     | q a b => rw [hA] at ha; cases ha
 
-theorem mapM_ok_of_forall {α β ε : Type} (f : α → Except ε β) (l : List α)
+theorem IdAux.mapM_ok_of_forall {α β ε : Type} (f : α → Except ε β) (l : List α)
     (h : ∀ a ∈ l, ∃ b, f a = .ok b) : ∃ r, l.mapM f = .ok r := by
   cases hm : l.mapM f with
   | ok r => exact ⟨r, rfl⟩
@@ -118,7 +118,7 @@ theorem mapM_ok_of_forall {α β ε : Type} (f : α → Except ε β) (l : List 
     rw [hb] at hfa
     cases hfa
 
-theorem forall₂_length {α β : Type} {R : α → β → Prop} {l : List α} {r : List β} (h : List.Forall₂ R l r) :
+theorem IdAux.forall₂_length {α β : Type} {R : α → β → Prop} {l : List α} {r : List β} (h : List.Forall₂ R l r) :
     l.length = r.length := by
   induction h with
   | nil => rfl
@@ -163,7 +163,7 @@ theorem valid_nodes_ne (hv : Valid I) : I.G.nodes ≠ [] := by
   obtain ⟨y, hy⟩ := List.exists_mem_of_ne_nil _ hv.yne
   exact List.ne_nil_of_mem (hv.ysub y hy)
 
-theorem wf_removeNodes (G : MG Name) (S : List Name) : (G.removeNodes S).WF := wf_fromEdges _ _ _
+theorem IdAux.wf_removeNodes (G : MG Name) (S : List Name) : (G.removeNodes S).WF := wf_fromEdges _ _ _
 
 /-- members of the single district of `G ∖ X` are exactly the nodes outside `X` -/
 theorem single_gx (hv : Valid I) {S : List Name} (hS : (I.G.removeNodes I.X).districts = [S]) (v : Name) :
@@ -293,13 +293,13 @@ def GoodStep (I : IdIn) : Step → Prop
   | .tail J => Valid J ∧ measureLt J.measure I.measure = true
   | .split Js _ => ∀ J ∈ Js, Valid J ∧ measureLt J.measure I.measure = true
 
-theorem measureLt_of_fst {a b : Nat × Nat} (h : a.1 < b.1) : measureLt a b = true := by
+theorem IdAux.measureLt_of_fst {a b : Nat × Nat} (h : a.1 < b.1) : measureLt a b = true := by
   simp [measureLt, h]
 
-theorem measureLt_of_snd {a b : Nat × Nat} (h1 : a.1 = b.1) (h2 : a.2 < b.2) : measureLt a b = true := by
+theorem IdAux.measureLt_of_snd {a b : Nat × Nat} (h1 : a.1 = b.1) (h2 : a.2 < b.2) : measureLt a b = true := by
   simp [measureLt, h1, h2]
 
-theorem two_le_length {l : List Name} {a b : Name} (ha : a ∈ l) (hb : b ∈ l) (hab : a ≠ b) : 2 ≤ l.length := by
+theorem IdAux.two_le_length {l : List Name} {a b : Name} (ha : a ∈ l) (hb : b ∈ l) (hab : a ≠ b) : 2 ≤ l.length := by
   have hnd : [a, b].Nodup := by simp [hab]
   have hs : [a, b] ⊆ l := by
     intro x hx
@@ -307,17 +307,17 @@ theorem two_le_length {l : List Name} {a b : Name} (ha : a ∈ l) (hb : b ∈ l)
     rcases hx with rfl | rfl <;> assumption
   simpa using (List.subperm_of_subset hnd hs).length_le
 
-theorem mem_diff' {a : Name} {l m : List Name} : a ∈ diff' l m ↔ a ∈ l ∧ a ∉ m := by
+theorem IdAux.mem_diff' {a : Name} {l m : List Name} : a ∈ diff' l m ↔ a ∈ l ∧ a ∉ m := by
   simp [diff']
 
-theorem mem_inter' {a : Name} {l m : List Name} : a ∈ inter' l m ↔ a ∈ l ∧ a ∈ m := by
+theorem IdAux.mem_inter' {a : Name} {l m : List Name} : a ∈ inter' l m ↔ a ∈ l ∧ a ∈ m := by
   simp [inter']
 
-theorem mem_union' {a : Name} {l m : List Name} : a ∈ union' l m ↔ a ∈ l ∨ a ∈ m := by
+theorem IdAux.mem_union' {a : Name} {l m : List Name} : a ∈ union' l m ↔ a ∈ l ∨ a ∈ m := by
   simp only [union', List.mem_append, List.mem_filter, decide_eq_true_eq]
   tauto
 
-theorem subset'_iff {l m : List Name} : subset' l m = true ↔ ∀ a ∈ l, a ∈ m := by
+theorem IdAux.subset'_iff {l m : List Name} : subset' l m = true ↔ ∀ a ∈ l, a ∈ m := by
   simp [subset']
 
 /-- line 7 replaces the estimand by a genuine product (at least two conditionals, none of them a constant) -/
